@@ -112,7 +112,7 @@ func (e *Engine) invoke(st *St, recv *IfaceV, m *types.Func, args []Value, c *ss
 		if single {
 			return e.callStatic(st, fn, full, nil, c)
 		}
-		sub := &St{pc: g, heap: st.heap.clone()}
+		sub := &St{pc: g, heap: st.heap.child()}
 		v := e.callStatic(sub, fn, full, nil, c)
 		brs = append(brs, branchRes{sub, v})
 	}
@@ -137,7 +137,7 @@ func (e *Engine) callFuncV(st *St, fv *FuncV, args []Value, c *ssa.CallCommon) V
 	var brs []branchRes
 	var sig *types.Signature
 	for _, a := range live {
-		sub := &St{pc: e.S.And(st.pc, a.G), heap: st.heap.clone()}
+		sub := &St{pc: e.S.And(st.pc, a.G), heap: st.heap.child()}
 		v := e.callStatic(sub, a.Fn, args, a.Bind, c)
 		brs = append(brs, branchRes{sub, v})
 		sig = a.Fn.Signature
@@ -429,7 +429,7 @@ func (e *Engine) mapUpdate(st *St, m *MapV, k, v Value) {
 	if !found.IsTrue() {
 		out.E = append(out.E, MapEntry{K: k, V: v, P: e.S.Not(found)})
 	}
-	st.heap.over[id] = out
+	st.heap.set(id, out)
 }
 
 func (e *Engine) mapDelete(st *St, m *MapV, k Value) {
@@ -446,7 +446,7 @@ func (e *Engine) mapDelete(st *St, m *MapV, k Value) {
 			out.E = append(out.E, en)
 		}
 	}
-	st.heap.over[id] = out
+	st.heap.set(id, out)
 }
 
 func (e *Engine) mapLen(st *St, m *MapV) *T {
@@ -503,7 +503,7 @@ func (e *Engine) rangeNext(st *St, x *ssa.Next) Value {
 		sub := &SliceV{Base: s.Base, Off: S.Add(s.Off, pos), Len: S.Ite(ok, S.Sub(s.Len, pos), e.c64(0)), IsStr: true}
 		res := e.CallFunc(st, dec, []Value{sub}, nil)
 		r, size := res[0].(*T), res[1].(*T)
-		st.heap.over[it.Pos] = S.Ite(ok, S.Add(pos, size), pos)
+		st.heap.set(it.Pos, S.Ite(ok, S.Add(pos, size), pos))
 		return &TupleV{V: []Value{ok, pos, r}}
 	}
 	// map: entries in Perm order; position is concrete when the loop is unrolled pass by pass
@@ -539,7 +539,7 @@ func (e *Engine) rangeNext(st *St, x *ssa.Next) Value {
 	if !npos.IsConst() {
 		e.unsupported("map iteration over entries with symbolic presence")
 	}
-	st.heap.over[it.Pos] = npos
+	st.heap.set(it.Pos, npos)
 	if k == nil {
 		k, v = kz, vz
 	}
